@@ -389,6 +389,103 @@ def gen_fns(names):
         table['select_' + kind] = ('select', (lambda k: lambda d: astload.param_types(d)[-1] == f'nano::{k}_map_t')(kind))
     return [Fn('gen_' + n, GENERATOR_TU, table[n][0], flt=flt, select=table[n][1], **common) for n in names]
 
+PAIR_H = 'specs/C08/pairwise.h'
+PAIR_TU = 'src/generator/pairwise_product.cpp'      # explicit instantiation of pairwise_generator_t<pairwise_product_t>
+STORAGE = [('f32', 'float', 'float'), ('f64', 'double', 'double'), ('i8', 'signed char', 'int8_t'), ('i16', 'short', 'int16_t'),
+           ('i32', 'int', 'int32_t'), ('i64', 'long', 'int64_t'), ('u8', 'unsigned char', 'uint8_t'), ('u16', 'unsigned short', 'uint16_t'),
+           ('u32', 'unsigned int', 'uint32_t'), ('u64', 'unsigned long', 'uint64_t')]
+
+
+def product_op_fn(t1, t2, uf=False):
+    """the instantiation of the generic lambda in pairwise_product_t::process for the storage types (t1, t2)"""
+    cxx = lambda t: f'nano::tensor_t<nano::tensor_carray_storage_t, {t[1]}, 3>'
+    types = [(r'^nano::tensor_t<nano::tensor_carray_storage_t, ' + t[1] + r', 3>$', 'struct nv_t3_' + t[0]) for t in STORAGE]
+    types += [(r'^\(lambda at .*pairwise_product\.h:\d+:\d+\)$', 'struct nv_op')]
+    return Fn(f'product_op_{t1[0]}_{t2[0]}', PAIR_TU, 'process', flt='nano::pairwise_product_t::process', lambda_index=0,
+              lambda_select=lambda m: astload.template_args(m) == [cxx(t1), cxx(t2)], self_struct='struct nv_op', types=types,
+              calls=[(r'^operator\(\)\|typename tbase::tconstref \(const nano::tensor_size_t\) const', '{0}.p[{1}]')], uf_float=uf)
+
+
+def product_target(t1):
+    body = ['int main(void)\n{\n  struct nv_op op; nv_thrown = 0;']
+    fns = []
+    for t2 in STORAGE:
+        fns.append(product_op_fn(t1, t2))
+        body.append(f'  {{ {t1[2]} v1; {t2[2]} v2; struct nv_t3_{t1[0]} a; struct nv_t3_{t2[0]} b; a.p = &v1; a.n = 1; b.p = &v2; b.n = 1;\n'
+                    f'    double r = product_op_{t1[0]}_{t2[0]}(&op, &a, &b);\n'
+                    f'    __CPROVER_assert(NV_SAME(r, (double)v1 * (double)v2), "product({t1[0]}, {t2[0]}): the value is the product of the two stored values taken in scalar_t"); }}')
+    body.append('  __CPROVER_assert(0, "nv_canary: end of harness reachable");\n  return 0;\n}\n')
+    return Target('product_op_' + t1[0], fns, PAIR_H, enforce_none=True, harness="\n".join(body), timeout=30)
+
+PAIRLOOP_H = 'specs/C08/pairloop.h'
+PAIR_IT = 'nano::datasource_pairwise_iterator_t<int, 4, unsigned int, 4>'
+
+
+def process_hook(P, n):
+    """`this->process(ifeature)` (a static member called through this: the callee is a MemberExpr, not a DeclRefExpr)"""
+    if n.get('kind') != 'CallExpr' or not n.get('inner'):
+        return None
+    from cxx2c import unwrap
+    c = unwrap(n['inner'][0])
+    if c.get('kind') != 'MemberExpr' or c.get('name') != 'process' or len(n['inner']) != 2:
+        return None
+    P.note('this->process(ifeature) -> nv_process')
+    return f'nv_process({P.expr(n["inner"][1])})'
+
+
+def pairloop_fns(which):
+    t3 = lambda t: r'tensor_t<nano::tensor_carray_storage_t, ' + t + r', 3>'
+    types = [(r'^nano::base_datasource_iterator_t$', 'struct nv_iter'),
+             (r'^' + PAIR_IT.replace('<', '<') + r'$', 'struct nv_pairiter'),
+             (r'^nano::indices_cmap_t$|tensor_t<nano::tensor_carray_storage_t, long, 1>', 'struct nv_ilist'),
+             (r'^nano::mask_cmap_t$|tensor_t<nano::tensor_carray_storage_t, unsigned char, 1>', 'struct nv_mask'),
+             (r'data[12]_cmap_t$|tensor_t<nano::tensor_carray_storage_t, (int|unsigned int), 4>$', 'struct nv_t4'),
+             (r'^(nano::)?' + t3('int') + '$', 'struct nv_t3_i32'), (r'^(nano::)?' + t3('unsigned int') + '$', 'struct nv_t3_u32'),
+             (r'^nano::tensor2d_map_t$|tensor_t<nano::tensor_marray_storage_t, double, 2>', 'struct nv_t2d'),
+             (r'^nano::scalar_map_t$|tensor_t<nano::tensor_marray_storage_t, double, 1>', 'struct nv_t1d_out'),
+             (r'^std::tuple<long, bool, nano::' + t3('int') + ', bool, nano::' + t3('unsigned int') + r'>$|^tuple<typename __decay_and_strip<long>::__type, typename __decay_and_strip< ?bool &>::__type, typename __decay_and_strip<' + t3('int') + '>::__type, typename __decay_and_strip< ?bool &>::__type, typename __decay_and_strip<' + t3('unsigned int') + '>::__type>$', 'struct nv_tuple5'),
+             (r'^std::tuple<\(lambda at .*pairwise_product\.h:\d+:\d+\), long>$', 'struct nv_tuple_op_i64'),
+             (r'^\(lambda at .*pairwise_product\.h:\d+:\d+\)$', 'struct nv_op')]
+    ilist = [(r'^operator\(\)\|typename tbase::tconstref \(const nano::tensor_size_t\) const\|.*tensor_carray_storage_t, long, 1>', 'nv_ilist_at({&0}, {1})')]
+    size1 = [(r'^size\|nano::tensor_base_t<long, 1, true>', '{*self}.n')]
+    flt = 'nano::base_datasource_iterator_t'
+    base = dict(self_struct='struct nv_iter', types=types, calls=ilist, uf_float=False,
+                members=size1 + [(r'^index\|nano::base_datasource_iterator_t', 'iter_index'), (r'^size\|nano::base_datasource_iterator_t', 'iter_size')])
+    fns = [Fn('iter_sample', DRV, 'sample', flt=flt, **base),
+           Fn('iter_inc', DRV, 'operator++', flt=flt, select=lambda d: astload.param_types(d) == [], **base),
+           Fn('iter_bool', DRV, 'operator bool', flt=flt, kinds=('CXXConversionDecl',), **base),
+           Fn('iter_index', DRV, 'index', flt=flt, **base), Fn('iter_size', DRV, 'size', flt=flt, **base),
+           Fn('mask_getbit', MASK_TU, 'getbit', flt='nano::getbit', types=types, calls=ELEM, uf_float=False)]
+    deref = Fn('pairiter_deref', PAIR_TU, 'operator*', flt='nano::datasource_pairwise_iterator_t',
+               select=lambda d: re_search(r'__decay_and_strip<tensor_t<nano::tensor_carray_storage_t, int, 3>>::__type, typename __decay_and_strip<const bool &>::__type, typename __decay_and_strip<tensor_t<nano::tensor_carray_storage_t, unsigned int, 3>>', d['type']['qualType']),
+               self_struct='struct nv_pairiter', types=types, uf_float=False,
+               calls=[(r'^getbit\|', 'mask_getbit'), (r'^make_tuple\|', '(struct nv_tuple5){ {0}, {1}, {2}, {3}, {4} }')],
+               members=[(r'^sample\|nano::base_datasource_iterator_t \*', 'iter_sample(&{self}->base)'),
+                        (r'^index\|nano::base_datasource_iterator_t \*', 'iter_index(&{self}->base)'),
+                        (r'^tensor\|nano::tensor_t<nano::tensor_carray_storage_t, int, 4>', 'nv_t4_tensor_i32'),
+                        (r'^tensor\|nano::tensor_t<nano::tensor_carray_storage_t, unsigned int, 4>', 'nv_t4_tensor_u32')])
+    i32, u32 = [t for t in STORAGE if t[0] == 'i32'][0], [t for t in STORAGE if t[0] == 'u32'][0]
+    op = product_op_fn(i32, u32, uf=True)   # the arithmetic is the product_op_* targets' business: here the product is uninterpreted
+    loop_common = dict(self_struct='struct nv_gen', types=types, uf_float=False, hooks=[process_hook],
+                       members=[(r'^operator bool\|nano::base_datasource_iterator_t', 'iter_bool(&({*self}).base)')])
+    loop_calls = [(r'^operator\*\|tuple<.*\(\) const\|', 'pairiter_deref'),
+                  (r'^operator\+\+\|nano::base_datasource_iterator_t &\(\)', 'iter_inc(&({0}).base)'),
+                  (r'^operator\(\)\|double \(const nano::tensor_t<nano::tensor_carray_storage_t, int, 3> &, const nano::tensor_t<nano::tensor_carray_storage_t, unsigned int, 3> &\) const', 'product_op_i32_u32')]
+    if which == 'select':
+        loop = Fn('pairwise_select_scalar', PAIR_TU, 'select_scalar', flt='pairwise_generator_t',
+                  select=lambda d: astload.template_args(d) == [PAIR_IT],
+                  calls=loop_calls + [(r'^operator\(\)\|typename tbase::tconstref \(const nano::tensor_size_t\) const\|.*tensor_marray_storage_t, double, 1>', '(*nv_out1_at({&0}, {1}))')], **loop_common)
+    else:
+        loop = Fn('pairwise_flatten', PAIR_TU, 'flatten', flt='pairwise_generator_t',
+                  select=lambda d: (lambda ta: len(ta) == 2 and 'pairwise_product.h' in ta[0] and ta[1] == PAIR_IT)(astload.template_args(d)),
+                  calls=loop_calls + [(r'^operator\(\)\|typename tbase::tconstref \(const nano::tensor_size_t, const (nano::tensor_size_t|long)\) const\|.*tensor_marray_storage_t, double, 2>', '(*nv_out2_at({&0}, {1}, {2}))')], **loop_common)
+    return [loop, deref, op] + fns
+
+
+def re_search(rx, text):
+    import re
+    return re.search(rx, text) is not None
+
 
 def build(tier):
     targets = []
@@ -417,6 +514,10 @@ def build(tier):
     _, g5, _ = mask_fns()
     targets.append(Target('dataset_guarded_read', [chk_s, dss, g5] + list(iter_fns()), DS_H, enforce_none=True, harness=GUARDED_READ))
     targets.append(Target('flatten_sclass_u8', flatten_fns(), FLAT_H))
+    for t1 in STORAGE:
+        targets.append(product_target(t1))
+    targets.append(Target('pairwise_select_scalar', pairloop_fns('select'), PAIRLOOP_H))
+    targets.append(Target('pairwise_flatten', pairloop_fns('flatten'), PAIRLOOP_H))
     for op in ('drop', 'shuffle', 'undrop', 'unshuffle'):
         targets.append(Target('gen_' + op, gen_fns([op, 'should_drop', 'shuffled']), GEN_H, enforce_none=True, harness=gen_harness(op)))
     targets.append(Target('gen_should_drop', gen_fns(['should_drop']), GEN_H))
